@@ -257,6 +257,16 @@ def emit_item(spec, repo, out, stats, vspec_path, cache):
             raise Lost("%s: rewrite %s %r applied %d times, expected %d" % (fn, rid, old, total, want))
         stats["rewrites"].setdefault(rid, 0)
         stats["rewrites"][rid] += total
+    # R6 (automatic): derive lines are dropped from extracted datatypes unless the item
+    # carries its own R6 rewrite
+    if spec.kind in ("enum", "struct") and not any(r[0] == "R6" for r in spec.rewrites):
+        for i, p in enumerate(pieces):
+            if p[0] == "src":
+                t, n6 = re.subn(r"#\[derive\([^)]*\)\]", "", p[1])
+                if n6:
+                    pieces[i] = ("src", t, p[2])
+                    stats["rewrites"].setdefault("R6", 0)
+                    stats["rewrites"]["R6"] += n6
     # external_body: attribute in front
     if spec.external_body:
         out.add("#[verifier::external_body]", "gen", None, None, fn)
